@@ -35,10 +35,15 @@ def near_half(x, unit=1):
     return 0 < d < KNIFE * max(1, abs(y))
 
 
-def near_int(x):
+def near_int(x, strict_zero=True):
+    """x within the knife-edge band of an integer.  strict_zero=True: an exactly integral x is NOT a
+    knife edge (exact-by-construction streams, where floats equal the rationals); False: it is, because
+    the float computation of a value that is exactly integral in exact arithmetic may land just below"""
     y = Fraction(x)
     d = abs(y - round(y))
-    return 0 < d < KNIFE * max(1, abs(y))
+    if d == 0:
+        return (not strict_zero) and y != 0
+    return d < KNIFE * max(1, abs(y))
 
 
 def near_zero_cmp(a, b):
